@@ -1,8 +1,11 @@
 package main
 
 import (
+	mrand "math/rand"
 	"crypto/rand"
 	"io"
 )
 
 func nil2rand() io.Reader { return rand.Reader }
+
+func newRand(seed int64) *mrand.Rand { return mrand.New(mrand.NewSource(seed)) }
